@@ -333,6 +333,10 @@ func (o *objectGoArrayReflect) sortGet(i int) Value {
 }
 
 func (o *objectGoArrayReflect) swap(i int, j int) {
+	if n := o.fieldsValue.Len(); i >= n || j >= n {
+		// the comparator has shrunk the slice while it was being sorted
+		return
+	}
 	vi := o.fieldsValue.Index(i)
 	vj := o.fieldsValue.Index(j)
 	tmp := reflect.New(o.fieldsValue.Type().Elem()).Elem()
